@@ -150,7 +150,7 @@ def gen_ops(rng, tier):
         nsym = sum(bits[1:])
         pool = list(range(256)); rng.shuffle(pool)
         vals = (vals + pool)[:min(nsym, 256)]
-        for o in ("cderive", "dderive"):
+        for o in ("cderive", "dderive", "hrt"):
             ops.append("%s %d %d %s" % (o, dc, ll, tbl_str(bits, vals)))
     return ops
 
